@@ -13,6 +13,10 @@ LEAF = {'int', 'str', 'this', 'param', 'wire', 'sym', 'iv', 'phi', 'local', 'glo
 COMM = {'add', 'mul', 'gcd', '+', '*', '&', '|', '^', '&&', '||', '==', '!='}
 
 
+ITER_TYPES = ('std::_Rb_tree_const_iterator', 'std::_Rb_tree_iterator', '__gnu_cxx::__normal_iterator', 'std::_List_const_iterator', 'std::_List_iterator')
+
+NONMUTATING = ('find', 'begin', 'end', 'rbegin', 'rend', 'cbegin', 'cend', 'lower_bound', 'upper_bound', 'equal_range', 'data', 'c_str', 'count', 'size', 'length', 'empty', 'capacity', 'max_size')
+
 FILL_CTOR = re.compile(r'std::(vector|basic_string)<.*>::(vector|basic_string)\((unsigned long|size_type)[,)]')
 
 
@@ -301,6 +305,11 @@ class Analysis:
             o = e.get('o')
             if isinstance(o, dict) and o.get('k') == 'this':
                 return ('m', e['n'])
+            if e.get('n') == 'second' and st is not None and isinstance(o, dict) and o.get('k') == 'opcall' and o.get('op') in ('->', '*') and len(o.get('a', [])) == 1 \
+                    and isinstance(o['a'][0], dict) and o['a'][0].get('k') == 'var':
+                fo = st.env.get(('findof', o['a'][0]['id']))
+                if isinstance(fo, tuple):
+                    return fo
             b = self.loc(o, st)
             if b is None:
                 return None
@@ -332,6 +341,18 @@ class Analysis:
         if k == 'mcall' and is_owner_get(e):
             # p.get() of an owning smart pointer names the buffer the pointer variable stands for
             return self.loc(e['o'], st)
+        return None
+
+    def find_target(self, init, st):
+        x = init
+        while isinstance(x, dict) and (x.get('k') == 'cast' or (x.get('k') == 'ctor' and len(x.get('a', [])) == 1 and x['f'].split('<')[0] in ITER_TYPES)):
+            x = x['e'] if x.get('k') == 'cast' else x['a'][0]
+        if isinstance(x, dict) and x.get('k') == 'mcall' and x['f'].split('::')[-1] == 'find' and x['f'].startswith(('std::map<', 'std::set<')) and len(x.get('a', [])) == 1:
+            from .cfg import pure_lvalue
+            if pure_lvalue(x.get('o')):
+                b = self.loc(x['o'], st)
+                if b is not None:
+                    return ('e', b, self.idxkey(x['a'][0], st))
         return None
 
     def alias_target(self, v, init, st):
@@ -451,6 +472,13 @@ class Analysis:
                 return self.rel(op, n[1], T.int(0))
         if T.is_int(a, 0) and T.op(b) in ('cmp', 'cmpabs', 'sgn'):
             return self.rel(SWAP[op], b, a)
+        if op in ('==', '!='):
+            # m.find(k) == m.end()  is  !m.count(k)
+            for x, y in ((a, b), (b, a)):
+                xn, yn = T.node(x), T.node(y)
+                if xn[0] == 'mc' and yn[0] == 'mc' and isinstance(xn[1], str) and isinstance(yn[1], str) and xn[1].endswith('::find') and \
+                        yn[1].endswith('::end') and xn[1].startswith(('std::map<', 'std::set<')) and len(xn) == 4 and len(yn) == 3 and xn[2] == yn[2]:
+                    return T.mk('falsy' if op == '==' else 'truthy', T.mk('mc', xn[1][:-len('find')] + 'count', xn[2], xn[3]))
         if op in ('>', '>='):
             op, a, b = SWAP[op], b, a
         if op in ('==', '!='):
@@ -544,6 +572,9 @@ class Analysis:
             args = tuple(self.ev_arg(a, st, nid) for a in e['a'])
             self.event(nid, ('ctor', e['f'], args, e.get('l', 0), e.get('fid', '')))
             self.call_effects(e, e['a'], args, st, nid, e.get('fid', ''))
+            if len(args) == 1 and e['f'].split('<')[0] in ITER_TYPES:
+                # iterator -> const_iterator conversion
+                return args[0]
             if len(args) == 1 and e['f'].split('<')[0] in ('std::unique_ptr', 'std::shared_ptr') and e['a'][0].get('k') in ('new', 'cast'):
                 # an owning pointer constructed from a new-expression stands for that block
                 return args[0]
@@ -931,7 +962,8 @@ class Analysis:
                     self.event(nid, ('rcv', l, w, line))
             self.bump_stream(ol, st, nid, short)
             return T.mk('mc', short, self.read(('stream', ol), st) if ol else ov, *args)
-        is_const = fid.endswith('const')
+        # the non-const overloads of the observers do not change the container either
+        is_const = fid.endswith('const') or (f.startswith('std::') and short in NONMUTATING)
         if short in ('at',) and len(e['a']) == 1:
             self.note_index(e, o, e['a'][0], st, nid)
         if short in ('at', 'front', 'back'):
@@ -997,7 +1029,7 @@ class Analysis:
             v = self.ev(aex[1], st, nid)
             sl = self.loc(self.stream_root(aex[0]), st)
             if not (isinstance(aex[1], dict) and aex[1].get('k') == 'fn'):
-                self.event(nid, ('snd', sl, v, line, f))
+                self.event(nid, ('snd', sl, v, line, f, self.loc(aex[1], st)))
             # writing into a local stringstream makes its content depend on v
             if sl is not None:
                 l = ('stream', sl)
@@ -1064,6 +1096,11 @@ class Analysis:
                     self.event(nid, ('vla', sz, v['n'], n.line))
                 st.env.pop(('alias', v['id']), None)
                 st.env.pop(('aliasiv', v['id']), None)
+                st.env.pop(('findof', v['id']), None)
+                fo = self.find_target(v.get('init'), st)
+                if fo is not None:
+                    # it = m.find(k): it->second names the cell m[k]
+                    st.env[('findof', v['id'])] = fo
                 if v.get('init') is not None and self.alias_target(v, v['init'], st) is not None:
                     # T &r = obj;  /  mpz_ptr p = cell;  -- r / p is another name of that object
                     self.ev(v['init'], st, nid)
